@@ -240,6 +240,25 @@ func (g *Gen) Expr(d int) *Node {
 	}
 }
 
+// operand of a loop-condition comparison: numbers, strings, fields (numeric strings), variables
+func (g *Gen) cmpOperand(d int) *Node {
+	r := g.R
+	switch r.Intn(8) {
+	case 0:
+		return n("num", r.Pick(numLits))
+	case 1:
+		return n("str", r.Pick(strLits))
+	case 2:
+		return n("field", "", n("num", fmt.Sprint(r.Intn(4))))
+	case 3:
+		return n("var", g.scalarName())
+	case 4:
+		return n("index", g.arrayName(), n("num", fmt.Sprint(r.Intn(3))))
+	default:
+		return g.Expr(d)
+	}
+}
+
 // operand of a concatenation: nothing that starts with + or - and nothing of lower precedence unparenthesised
 func (g *Gen) catOperand(d int) *Node {
 	e := g.Expr(d)
@@ -289,7 +308,7 @@ func (g *Gen) Stmt(d int) *Node {
 	if d <= 0 {
 		return g.simpleStmt(1)
 	}
-	switch r.Intn(16) {
+	switch r.Intn(17) {
 	case 0, 1, 2, 3, 4:
 		return g.simpleStmt(d)
 	case 5:
@@ -323,6 +342,17 @@ func (g *Gen) Stmt(d int) *Node {
 		if r.Intn(4) == 0 {
 			s.S = c + "|nocond"
 		}
+		g.InLoop++
+		s.Body = g.Stmts(d-1, 1+r.Intn(2))
+		g.InLoop--
+		return s
+	case 15:
+		// loops whose condition is a bare comparison of arbitrary operands (the fused jump at the loop
+		// bottom); the iteration guard lives in the body
+		g.loopVars++
+		c := fmt.Sprintf("c%d", g.loopVars)
+		cmpop := r.Pick([]string{"<", "<=", ">", ">=", "==", "!="})
+		s := n(r.Pick([]string{"while2", "do2", "for2"}), c, n("bin", cmpop, g.cmpOperand(d-1), g.cmpOperand(d-1)))
 		g.InLoop++
 		s.Body = g.Stmts(d-1, 1+r.Intn(2))
 		g.InLoop--
@@ -673,6 +703,23 @@ func (o Opts) stmt(s *Node, ind string, sb *strings.Builder) {
 		} else {
 			w("for (%s = 0; %s; %s++) {", c, o.cond(n("bin", "<", n("var", c), s.Kids[0])), c)
 		}
+		o.stmts(s.Body, ind+"  ", sb)
+		w("}")
+	case "while2":
+		w("%s = 0", s.S)
+		w("while (%s) {", o.cond(s.Kids[0]))
+		w("  if (++%s > 3) break", s.S)
+		o.stmts(s.Body, ind+"  ", sb)
+		w("}")
+	case "do2":
+		w("%s = 0", s.S)
+		w("do {")
+		w("  if (++%s > 3) break", s.S)
+		o.stmts(s.Body, ind+"  ", sb)
+		w("} while (%s)", o.cond(s.Kids[0]))
+	case "for2":
+		w("for (%s = 0; %s; %s++) {", s.S, o.cond(s.Kids[0]), s.S)
+		w("  if (%s >= 3) break", s.S)
 		o.stmts(s.Body, ind+"  ", sb)
 		w("}")
 	case "forin":
